@@ -353,6 +353,37 @@ func runC11(r *Run) {
 		r.atLeast("float formatting sites in the client", n, 1)
 	})
 
+	r.rule("R7", "a struct applied to a request replaces what its keys held: in SetValWithStruct every exported field reaches the next field only through p.Del(name) — an empty slice clears the key too (E1)", func() {
+		f := r.Fn("client", "SetValWithStruct")
+		isDel := func(in ssa.Instruction) bool {
+			ci, ok := in.(ssa.CallInstruction)
+			return ok && ci.Common().IsInvoke() && ci.Common().Method.Name() == "Del"
+		}
+		// the step to the next field: i + 1 on the loop variable
+		isStep := func(in ssa.Instruction) bool {
+			bo, ok := in.(*ssa.BinOp)
+			if !ok || bo.Op != token.ADD || !isConstInt(bo.Y, 1) {
+				return false
+			}
+			_, isPhi := bo.X.(*ssa.Phi)
+			return isPhi
+		}
+		n := 0
+		for _, c := range callsMatching(f, false, nameHasSuffix("reflect.StructField).IsExported")) {
+			for _, br := range ifsOnValue(f, c.Value()) {
+				sl, ok := br.truthSlot(true)
+				if !ok {
+					continue
+				}
+				n++
+				path, hit := reachEdge(edge{br.If.Block(), sl}, isStep, nil, isDel)
+				r.check(hit == nil, fmt.Sprintf("SetValWithStruct:exported-field#%d:key-cleared", n), r.pos(br.If), "from the `exported` edge every path to the next field passes p.Del(name)",
+					"a field of the struct can be skipped without its key being cleared (e.g. an empty slice): values stored under that key earlier — by a previous struct, by AddParam — are sent although the struct says there are none: "+pathString(r.P, path))
+			}
+		}
+		r.atLeast("exported-field tests in SetValWithStruct", n, 1)
+	})
+
 	r.rule("R5", "visitor error latch (E1)", func() {
 		n := 0
 		for _, b := range []string{"HeaderBinding", "RespHeaderBinding", "CookieBinding", "QueryBinding", "FormBinding"} {
